@@ -256,6 +256,7 @@ def case_channel(ctx, rng, idx):
         okc, got = ctx.call("sinr-equals-first-principles", mu.calc_SINR, Fo, Uo, *extra,
                             detail=tag)
         if okc:
+            ctx.hold("sinr-equals-first-principles", "calc_SINR", got)
             want = oracle_sinr(Hkj, Hext, F, U, noise, pe)
             cmp_sinr(ctx, "sinr-equals-first-principles", "ic" + ("-extint" if extint else ""),
                      got, want, nterms, d())
